@@ -13,7 +13,7 @@ func init() {
 	register("C10",
 		"Structural necessary conditions of C10 decided from /repo's SSA: (errflow) every error-typed value produced in module code (call results and receives from `chan error`, 139 today) is returned on its non-nil edge (wrapped or replaced), sent on an error channel, stored in a memo, or ends in panic — enumerated single-construct exceptions only (io.EOF from a line reader, ExitCode()==1 of `config --get`, ErrNotExist of the shallow marker, ErrHelp, writes to *bytes.Buffer / the diagnostic stream / help and version text, isatty); (short-read) in each counted read loop the stream-ended-early and wrong-type edges leave with a non-nil error; (wait) each iterator's Next returns the pipeline's Wait() error on its end-of-stream path and every function that obtains an iterator returns success only after Next reported end-of-stream; (stdout) report writes are dominated by the success edge of the scan, their own errors are returned, nothing else receives stdout, os.Stdout is used only in main and no fmt.Print* exists; (close) every channel the consumer receives from is closed by a deferred close at the top of exactly one producer stage, feeders close their request channel on all exits, and the error channel has room for its pending sender. Not decided: general absence of hangs, the report being identical to the fault-free one, go-pipe/os/exec behaviour under kills.",
 		[]string{"github.com/github/go-pipe: Pipeline.Wait returns the first stage error / non-zero exit; stages are cancelled through the context", "os/exec.Cmd.Output waits for the child and reports a non-zero exit"},
-		ruleC10Errflow, ruleC10ShortRead, ruleC10Wait, ruleC10Stdout, ruleC10Close, ruleC10Bounds)
+		ruleC10Errflow, ruleC10ShortRead, ruleC10Wait, ruleC10Stdout, ruleC10Close, ruleC10Bounds, ruleC10Shallow)
 }
 
 // allErrorExits: every way out of the region dominated by edge p->t is a
@@ -556,4 +556,12 @@ func firstRealInstr(f *ssa.Function) ssa.Instruction {
 func ruleC10Bounds(c *Ctx) {
 	c.boundsOfPackage("C10.no-crash", "")
 	c.boundsOfPackage("C10.no-crash", "/sizes", "graph.go", "sizes.go", "grouper.go", "explicit_root.go")
+}
+
+// ruleC10Shallow: C10 promises that a shallow repository is refused; the
+// clause is C13.shallow, reported here under C10's name.
+func ruleC10Shallow(c *Ctx) {
+	c.RuleAlias = map[string]string{"C13.shallow": "C10.shallow"}
+	defer func() { c.RuleAlias = nil }()
+	ruleC13Shallow(c)
 }
